@@ -374,7 +374,7 @@ func z3Scenarios(thorough bool) []z3Scenario {
 		{Name: "corrupt-then-cancel", Layers: []int{3}, Config: 2, Faults: []string{"500", "flip"}, CancelLate: true, Faulty: 1},
 		{Name: "three-parts-cancel-late", Layers: []int{10}, Config: 2, CancelLate: true, Faulty: 1},
 		{Name: "same-digest-twice", Layers: []int{3, 5}, Dup: true, Faults: []string{"500", "truncate", "flip"}, Faulty: 1},
-		{Name: "malformed-manifest", Cap: 1, Layers: []int{3, 5}, Config: 2, Faults: []string{"badjson", "manifest-empty-digest", "manifest-short-digest", "manifest-nohex-digest", "manifest-null-layer", "manifest-dup-layer"}, Faulty: 1},
+		{Name: "malformed-manifest", Cap: 1, Layers: []int{3, 5}, Config: 2, Faults: []string{"badjson", "manifest-empty-digest", "manifest-short-digest", "manifest-nohex-digest", "manifest-null-layer", "manifest-dup-layer", "manifest-wrong-size"}, Faulty: 1},
 	}
 	if thorough {
 		l = append(l,
